@@ -86,20 +86,18 @@ def fixed_tuple_orders(cls, dim, Lu):
     out = []
     if cls in SIMPLE:
         for prio in itertools.permutations(range(dim)):
-            for snake in itertools.product([False, True], repeat=dim):
+            for snake in ([False] * dim, [True] * dim, ([True, False] * dim)[:dim]):
                 out.append({'standard': [list(snake), list(prio)]})
     else:
         n = dim + 1
         for prio in itertools.permutations(range(n)):
-            for snake in ([False] * n, [True] * n, [True] + [False] * (n - 1), [False] * (n - 1) + [True]):
+            for snake in ([False] * n, ([True, False] * n)[:n]):
                 out.append({'standard': [list(snake), list(prio)]})
-        out.append({'standard': [([True, False] * n)[:n], None]})
+        out.append({'standard': [([False, True] * n)[:n], None]})
         if dim >= 2:
             us = list(range(Lu))
-            out.append({'grouped': [[us], None]})
             out.append({'grouped': [[[u] for u in reversed(us)], None]})
             if Lu >= 3:
-                out.append({'grouped': [[[0, 2], [1]], None]})
                 out.append({'grouped': [[[2, 0], [1]], [1, 0, 2]]})
             out.append({'grouped': [[us[::-1]], list(range(dim))[::-1] + [dim]]})
     return out
@@ -284,7 +282,7 @@ def helical_cases(rng, full):
     return out
 
 
-def exhaustive_family(rng, n_random_perms=2, n_random_tuples=2, maxL=4):
+def exhaustive_family(rng, n_random_perms=2, n_random_tuples=1, maxL=4):
     """Every lattice class x size <= maxL x maxL x named ordering (+ tuple orderings + random permutations)
     x every boundary combination. Queries are attached later (standard_queries)."""
     for cls, dim, Lu in class_variants():
@@ -320,6 +318,8 @@ def random_case(rng, maxL=4):
         order = random_rows(rng, Ls, Lu)
     ys = ['open', 'periodic', 1, -1, 2, -2, 3]
     bc = [rng.choice(['open', 'periodic'])] + [rng.choice(ys) for _ in range(dim - 1)]
+    if bc[0] == 'open' and any(isinstance(b, int) for b in bc) and rng.random() < 0.7:
+        bc[0] = 'periodic'  # the shifted + open-x class (known finding) is sampled, but not over-sampled
     mps = 'finite'
     if bc[0] == 'periodic':
         mps = rng.choice(['finite', 'infinite', 'infinite', 'segment'])
